@@ -1,0 +1,42 @@
+//go:build verif
+
+// Contracts for domain names: text <-> wire (msg.go packDomainName/UnpackDomainName, defaults.go
+// IsDomainName, types.go escaping helpers).  Comment-only file.
+//
+// namescan is the RFC 1035 section 5.1 / 2.3.4 reading of a fully-qualified presentation name: units are a
+// plain octet, \DDD (three decimal digits) or \c; an unescaped dot closes a label; a label has 1..63 octets
+// (the empty label only as the root "."); the wire form is the sum of (1 + label octets) plus the root octet
+// and must not exceed 255 octets.  It returns the number of labels, or -1 when the name is not valid.
+
+package dns
+
+//@ spec isdig(c int) bool = c >= '0' && c <= '9'
+//@ spec ddd(s seq, i int) bool = 0 <= i && i + 2 < len(s) && isdig(s[i]) && isdig(s[i+1]) && isdig(s[i+2])
+//@ spec namescan(s seq, i int, lab int, w int, wasDot bool, nl int) int = i >= len(s) ? nl : (s[i] == '\\' ? namescan(s, ddd(s, i+1) ? i+4 : i+2, lab+1, w, false, nl) : (s[i] == '.' ? (((i == 0 && len(s) > 1) || wasDot || lab >= 64 || w + 1 + lab + 1 > 255) ? 0-1 : namescan(s, i+1, 0, w+1+lab, true, nl+1)) : namescan(s, i+1, lab+1, w, false, nl))) decreases len(s) - i
+//@ spec validname(s seq) bool = namescan(s, 0, 0, 0, false, 0) >= 0
+
+// once closing the current label would exceed 255 octets, a fully-qualified name cannot become valid again
+//@ lemma ns_over(s seq, i int, lab int, w int, wasDot bool, nl int) induct len(s) - i over i lab wasDot: (IsFqdnSpec(s) && 0 <= i && i < len(s) && !escd(s, i) && lab >= 0 && w + lab + 2 > 255) ==> namescan(s, i, lab, w, wasDot, nl) < 0 [C03]
+
+//@ func isDigit [C03 C02]
+//@   ensures ret0 == isdig(b)
+
+//@ func isDDD [C03 C02]
+//@   ensures ret0 == ddd(s, 0)
+//@   pure
+
+//@ func dddToByte [C03 C02]
+//@   requires len(s) >= 3
+//@   ensures isdig(s[0]) && isdig(s[1]) && isdig(s[2]) ==> ret0 == ((s[0] - '0') * 100 + (s[1] - '0') * 10 + (s[2] - '0')) % 256
+//@   pure
+
+//@ func IsDomainName [C03]
+//@   apply at "if off+1 > lenmsg" ns_over(s, i, i - begin, off, wasDot, labels)
+//@   ensures empty: len(s) == 0 ==> !ok
+//@   ensures valid: IsFqdnSpec(s) ==> ok == (namescan(s, 0, 0, 0, false, 0) >= 0)
+//@   ensures count: IsFqdnSpec(s) && ok ==> labels == namescan(s, 0, 0, 0, false, 0)
+//@   loop 1 invariant 0 <= i && 0 <= begin && begin <= i && 0 <= off && off <= begin && 0 <= labels && len(s) > 0
+//@   loop 1 invariant rest: namescan(s, 0, 0, 0, false, 0) == namescan(s, i, i - begin, off, wasDot, labels)
+//@   loop 1 invariant unesc: i <= len(s) + 1 && (i == len(s) + 1 ==> s[len(s)-1] == '\\') && (i < len(s) ==> !escd(s, i))
+//@   loop 1 invariant esc: escape ==> i >= 1 && (i > len(s) || s[i-1] != '.' || escd(s, i-1))
+//@   loop 1 decreases len(s) - i
